@@ -6,6 +6,7 @@ NEP-50 overflow rule (narrow NumPy integers meeting out-of-range Python int
 constants), schema-enum totality, raise-class discipline and the CLI's
 VelaError handler. Totality over all models is not decided."""
 import ast
+import re
 import builtins
 import symtable
 
@@ -386,6 +387,55 @@ def rule_nep50(repo, rep, cg, reach):
                             f"{narrow_attr.get(getattr(a, 'attr', ''), ('', 'a narrow array'))[1] if isinstance(a, ast.Attribute) else 'a narrow array'}")
                 else:
                     rep.ok("C13-a'", site, txt, f"constants reaching the other operand: {[c for c, _ in consts][:4]}")
+    # 3. dimensions of tensors read from a model file are np.int32 scalars (the reader turns ShapeAsNumpy() into a list): a Python
+    #    int that can exceed int32 - a Q31 multiplier from quantise_scale shifted left - must not meet such a dimension in arithmetic
+    n_w = 0
+    for k in sorted(reach):
+        fi = cg.funcs[k]
+        if fi.mod.name.startswith("tosa"):
+            continue
+        dims, wide = set(), set()
+        assigns = sorted((s_ for s_ in walk_no_nested(fi.node) if isinstance(s_, ast.Assign) and len(s_.targets) == 1), key=lambda s_: (s_.lineno, s_.col_offset))
+
+        def is_dim(e):
+            if isinstance(e, ast.Call) and norm(e.func) in ("int", "float") and len(e.args) == 1:
+                return False  # explicit widening
+            if isinstance(e, ast.Subscript) and isinstance(e.slice, (ast.Constant, ast.UnaryOp)) and re.search(r"(^|[._])shape$", str(norm(e.value))):
+                return True
+            if isinstance(e, ast.Name):
+                return e.id in dims
+            if isinstance(e, ast.IfExp):
+                return is_dim(e.body) or is_dim(e.orelse)
+            if isinstance(e, ast.BinOp) and isinstance(e.op, (ast.Mult, ast.Add, ast.Sub, ast.FloorDiv)):
+                return is_dim(e.left) or is_dim(e.right)
+            return False
+
+        def is_wide(e):
+            if isinstance(e, ast.Name):
+                return e.id in wide
+            if isinstance(e, ast.BinOp) and isinstance(e.op, ast.LShift):
+                return is_wide(e.left)
+            return False
+
+        for _ in range(3):
+            for s_ in assigns:
+                t = s_.targets[0]
+                if isinstance(t, ast.Name):
+                    if is_dim(s_.value):
+                        dims.add(t.id)
+                    if is_wide(s_.value) and not (isinstance(s_.value, ast.Name)):
+                        pass
+                if isinstance(t, ast.Tuple) and isinstance(s_.value, ast.Call) and (call_name(s_.value) or "").split(".")[-1] in ("quantise_scale", "elementwise_mul_scale") and t.elts and isinstance(t.elts[0], ast.Name):
+                    wide.add(t.elts[0].id)
+        if not dims or not wide:
+            continue
+        for node in walk_no_nested(fi.node):
+            if isinstance(node, ast.BinOp) and isinstance(node.op, (ast.FloorDiv, ast.Mult, ast.Add, ast.Sub, ast.Mod)):
+                for a, b in ((node.left, node.right), (node.right, node.left)):
+                    if is_wide(a) and isinstance(a, ast.BinOp) and is_dim(b):
+                        n_w += 1
+                        rep.bad("C13-a'", f"ethosu/vela/{fi.mod.name}.py:{fi.qual}", f"{str(norm(node))[:90]} with the tensor dimension `{str(norm(b))[:40]}` : np.int32",
+                                f"`{str(norm(a))[:50]}` is a Q31 multiplier shifted left (a Python int of up to 63 bits) and the other operand is a dimension read from the model (np.int32): NumPy >= 2 raises OverflowError")
     rep.check(len(narrow_ret) + len(narrow_attr) >= 1 or True, "C13-a'", "ethosu/vela", f"{len(narrow_ret)} narrow-array producers, {len(narrow_attr)} narrow attributes tracked", "")
     # numpy is unpinned: the rule applies
     pp = repo.read_text("pyproject.toml")
